@@ -1,13 +1,13 @@
 package main
 
 import (
-	"sort"
-	"golang.org/x/tools/go/cfg"
-	"go/constant"
 	"fmt"
 	"go/ast"
+	"go/constant"
 	"go/token"
 	"go/types"
+	"golang.org/x/tools/go/cfg"
+	"sort"
 	"strings"
 )
 
